@@ -238,14 +238,15 @@ def run(ctx):
         # kind 8 -------------------------------------------------------
         if ntot <= 300 and gi % 3 == 0:
             add([8, G, ntot + 2, []], kind=8, gs=gs)
+        if ntot <= 300 and gi % 4 == 1 and n >= 2:
+            perm = list(range(1, n + 1)); rng.shuffle(perm)
+            add([8, G, ntot + 1, perm], kind=8, gs=gs)
 
     # kind 5: mirror
     for nx in range(2, 8):
         for ix in sorted(set([-1, 0, nx - 1, nx, nx + 1, 2 * nx, -nx, -2 * nx + 1] + [rng.randint(-60, 60) for _ in range(6 if quick else 20)])):
             add([5, nx, ix], kind=5)
-    add([5, 1, 0], kind=5)
-    add([5, 1, 1], kind=5)
-    if not quick: add([5, 1, -3], kind=5)
+    for ix in (0, 1, -1, 7, -12): add([5, 1, ix], kind=5)          # single-node axis: every index mirrors onto 0
     # kind 8 with a user-supplied order (child process)
     add([8, grid_sx({'n': 2, 'nx': [2, 3], 'x0': [0, 0], 'dx': [1, 1], 'rot': None}, hv), 6, [2, 1]], kind=8, gs={'n': 2, 'nx': [2, 3]})
     if not quick:
@@ -312,9 +313,10 @@ def run(ctx):
     if not proofs_ok: proof_break_violation(ctx, st['found_input'])
     ctx.notes += [
         'theorems: rank<->indices, indices<->coordinates (any dimension, any orthogonal rotation, eps ranges), cell containment + uniqueness, outside flag, rotation round trips, '
-        'generated 2-D/3-D matrices are rotations, derived grids (unrotated: any nmult; rotated: same nmult on every axis), mirror index (nx>=2), default iterator; '
-        'refuted on the faithful model and replayed on the implementation: dilate (shift counted twice), multiple/divider cell matching on rotated grids with different nmult, '
-        'createSubGrid on rotated grids, generateMirrorIndex(nx=1), iterator with a user order',
+        'generated 2-D/3-D matrices are rotations, every node of coarsened / refined / dilated / sub-grids sits where documented (rotated grids and different nmult per axis included), '
+        'mirror index total for nx>=1, iterator with default and with any valid user order',
+        'the corpus keeps the witnesses of the defects repaired in /repo (dilate, multiple/divider rotated, createSubGrid rotated) as regression cases; '
+        'still open: migrate grid->point uses the corner-anchored cell (known finding migrate:grid-to-point:lower-corner-cell)',
         'not covered: Rotation::setMatrixDirect validity test (isMatrixRotation / determinant), angles recovered from a matrix (atan2), gridIndices / decodeGridSorting, '
         'createFromGridExtend / Shrink, variable migration inside createCoarse / createRefine (only the geometry), C int overflow, NA coordinates']
     ctx.assumptions = ['origins, meshes and query points are dyadic rationals (< 2^40 mantissa); rotation matrices are read back from the library as exact doubles',
@@ -322,22 +324,22 @@ def run(ctx):
                        'C int overflow is not modelled (indices and ranks stay far below 2^31)',
                        'EPSILON10 of AMatrix::isIdentity is modelled as the rational 1e-10 (the double differs by 4e-27)']
 
-def derived_verdict(ctx, c, viol, what, under, site, nx_i, dx_i, x0_i, nx_m, dx_m, x0_m, spec):
-    """derived grid geometry: impl vs spec (where node 0 has to be) and vs model (what the code is known to do).
+def derived_verdict(ctx, c, viol, what, under, site, nx_i, dx_i, x0_i, nx_m, dx_m, x0_m, spec, legacy=None):
+    """derived grid geometry: impl vs spec (where node 0 has to be) and vs model (= the repaired code, proven to meet the spec).
     Returns True when the node coordinates can still be compared with the model."""
     same_model = nx_i == nx_m and vclose(dx_i, dx_m) and vclose(x0_i, x0_m)
     ok_spec = vclose(x0_i, spec)
     if not ok_spec:
-        # a deviation that the model reproduces is a defect already described by the model: canonical key
-        if same_model: key = {'dilate': 'derived:dilate:doubled-shift', 'createSubGrid': 'derived:createSubGrid:rotated'}.get(under, 'derived:' + site)
-        else: key = 'derived:' + site + ':unmodelled'
+        if under == 'dilate':
+            key = 'derived:dilate:doubled-shift' if legacy is not None and vclose(x0_i, legacy) else 'derived:' + site
+        else: key = 'derived:' + site
         viol(key, '%s: origin %s, but node 0 of the derived grid has to be at %s of the parent' % (what, [float(x) for x in x0_i], [float(x) for x in spec]),
-             {'case': sx_str(c), 'impl_x0': [float(x) for x in x0_i], 'spec_x0': [float(x) for x in spec], 'model_of_code_x0': [float(x) for x in x0_m]})
+             {'case': sx_str(c), 'impl_x0': [float(x) for x in x0_i], 'spec_x0': [float(x) for x in spec]})
+        return False
     if not same_model:
-        if ok_spec:
-            bad_counts = nx_i != nx_m or not vclose(dx_i, dx_m)
-            viol(('derived:' + site + ':counts-or-mesh') if bad_counts else ('model-drift:' + under), '%s: impl (%s, %s, %s) / model (%s, %s, %s)' % (
-                what, nx_i, [float(x) for x in dx_i], [float(x) for x in x0_i], nx_m, [float(x) for x in dx_m], [float(x) for x in x0_m]), {'case': sx_str(c)}, bad_counts)
+        bad_counts = nx_i != nx_m or not vclose(dx_i, dx_m)
+        viol(('derived:' + site + ':counts-or-mesh') if bad_counts else ('model-drift:' + under), '%s: impl (%s, %s, %s) / model (%s, %s, %s)' % (
+            what, nx_i, [float(x) for x in dx_i], [float(x) for x in x0_i], nx_m, [float(x) for x in dx_m], [float(x) for x in x0_m]), {'case': sx_str(c)}, bad_counts)
         return False
     return True
 
@@ -468,21 +470,21 @@ def compare(ctx, c, m, ii, mi, viol, hv):
         if ii[4] != 1: viol('model-drift:rotation-matrix', 'the library does not use the rotation matrix given to the model', {'case': sx_str(c)}, False); return
         nx_i, dx_i, x0_i = ii[1], vd(ii[2]), vd(ii[3])
         nx_m, dx_m, x0_m, spec = mi[1], vq(mi[2]), vq(mi[3]), vq(mi[4])
-        derived_verdict(ctx, c, viol, 'Grid::%s(%s, %s)' % (name, a, b), name, site, nx_i, dx_i, x0_i, nx_m, dx_m, x0_m, spec)
+        legacy = vq(mi[5]) if len(mi) > 5 and mi[5] else None
+        derived_verdict(ctx, c, viol, 'Grid::%s(%s, %s)' % (name, a, b), name, site, nx_i, dx_i, x0_i, nx_m, dx_m, x0_m, spec, legacy)
     elif kind == 5:
         nx, ix = c[1], c[2]
         ctx.count('5|%d|%d' % (nx, ix), True)
         ri = ii[0]; rm, refl = mi
+        want = rm[1] if rm[0] == 1 else None           # proven: in range, = reflected index for nx >= 2, 0 for nx = 1 (C16_mirror)
         if ri[0] == 0:
-            if rm[0] == 0 or nx == 1:
-                viol('generateMirrorIndex:nx=%d' % nx if nx == 1 else 'generateMirrorIndex:no-termination', 'Grid::generateMirrorIndex(%d, %d) does not return within 2 s (the model proves the loop never ends: C16_mirror_nx1_diverges)' % (nx, ix),
-                     {'case': sx_str(c), 'child_status': 'timeout' if ri[1] == 1 else 'crash'})
-            else:
-                viol('generateMirrorIndex:no-termination', 'Grid::generateMirrorIndex(%d, %d) does not return within 2 s, the reflected index is %d' % (nx, ix, refl), {'case': sx_str(c)})
-        elif nx >= 2 and ri[1] != refl:
-            viol('generateMirrorIndex:value', 'Grid::generateMirrorIndex(%d, %d) = %d, the reflected index is %d' % (nx, ix, ri[1], refl), {'case': sx_str(c)})
-        elif rm[0] == 0 or ri[1] != rm[1]:
-            viol('model-drift:generateMirrorIndex', 'impl %s / model %s' % (ri, rm), {'case': sx_str(c)}, nx >= 2)
+            viol('generateMirrorIndex:nx=%d' % nx if nx == 1 else 'generateMirrorIndex:no-termination',
+                 'Grid::generateMirrorIndex(%d, %d) does not return within 2 s; it has to return %s' % (nx, ix, want),
+                 {'case': sx_str(c), 'child_status': 'timeout' if ri[1] == 1 else 'crash'})
+        elif want is None:
+            viol('model-drift:generateMirrorIndex', 'impl %s / model %s' % (ri, rm), {'case': sx_str(c)}, False)
+        elif ri[1] != want or (nx >= 2 and want != refl):
+            viol('generateMirrorIndex:value', 'Grid::generateMirrorIndex(%d, %d) = %d, the reflected index is %d' % (nx, ix, ri[1], want), {'case': sx_str(c)})
     elif kind == 6:
         op = c[2]
         name = ['DbGrid::create', 'createCoarse', 'createRefine', 'createSubGrid'][op]
@@ -550,11 +552,14 @@ def compare(ctx, c, m, ii, mi, viol, hv):
                     d = abs(o) - 1; out[d] = it % nx[d]; it //= nx[d]
                 return out
             want = [want_it(min(j, ntot - 1)) for j in range(k)]
+            seq_m = [x[1] if x[0] == 1 else None for x in mi[1]] if mi[0] == 1 else None
             if ii[0] == 0:
-                viol('iterator:user-order', 'iteratorInit(%s) is accepted, then iteratorNext %s (it indexes its arrays with |order| instead of |order|-1)' % (order, 'never returns' if ii[1] == 1 else 'crashes'),
+                viol('iterator:user-order', 'iteratorInit(%s) is accepted, then iteratorNext %s' % (order, 'never returns' if ii[1] == 1 else 'crashes'),
                      {'case': sx_str(c), 'expected': want})
             elif ii[1] != want:
-                viol('iterator:user-order', 'iteratorInit(%s): iteratorNext returns %s, expected %s' % (order, ii[1], want), {'case': sx_str(c), 'expected': want})
+                viol('iterator:user-order', 'iteratorInit(%s): iteratorNext returns %s, expected %s (order[0] is the fastest dimension)' % (order, ii[1], want), {'case': sx_str(c), 'expected': want})
+            elif ii[1] != seq_m:
+                viol('model-drift:iterator:user-order', 'impl %s / model %s' % (ii[1], seq_m), {'case': sx_str(c)}, False)
     elif kind == 9:
         n = c[1]
         M_i, flag_i, Minv_i, vec_i = ii
